@@ -344,6 +344,26 @@ func (g *gen) module() {
 		}
 		g.sigs = append(g.sigs, s)
 	}
+	if g.has(FeatTailCall) && g.has(FeatMultiValue) && nf >= 2 && g.chance(12, "widefamily") {
+		// a family of functions that can tail-call each other (same result types) where the results
+		// do not fit the result registers and the family members differ in how many of their
+		// parameters are passed on the stack (none / some): frame reuse has to account for both
+		nr := g.rng(9, 14, "widenr")
+		var r []byte
+		for k := 0; k < nr; k++ {
+			r = append(r, []byte{I32, I64, I64, F64, F32}[g.intn(5, "widert")])
+		}
+		fam := g.rng(2, min(nf, 3), "widefam")
+		for k := 0; k < fam; k++ {
+			np := []int{g.rng(9, 16, "widenp"), g.rng(0, 3, "narrownp"), g.rng(0, 12, "anynp")}[k]
+			var p []byte
+			for j := 0; j < np; j++ {
+				p = append(p, []byte{I32, I64, I64, I32, F64}[g.intn(5, "widept")])
+			}
+			g.sigs[len(g.sigs)-1-k] = Sig{P: p, R: append([]byte{}, r...)}
+		}
+		g.stat("wide-tailcall-family")
+	}
 
 	// --- tables ---
 	if g.chance(70, "hastable") {
@@ -351,10 +371,16 @@ func (g *gen) module() {
 		if g.has(FeatBulk) && g.chance(30, "twotables") {
 			nt = 2
 		}
+		// with two tables, the externref one may come first (the funcref table is then table 1)
+		externFirst := nt == 2 && g.chance(25, "externfirst")
 		for i := 0; i < nt; i++ {
 			elem := byte(FuncRef)
-			if i > 0 && g.chance(50, "externtable") {
+			if i > 0 && !externFirst && g.chance(50, "externtable") {
 				elem = ExternRef
+			}
+			if i == 0 && externFirst {
+				elem = ExternRef
+				g.stat("externref-table-first")
 			}
 			min := uint32(g.rng(0, 8, "tmin"))
 			max := int64(-1)
